@@ -269,6 +269,14 @@ func (l *lockerSim) doRequest(ctx context.Context, t *Task, locker *command.Defa
 	rec.invoked = true
 	rec.callStep = l.sched.step
 	l.sched.Logf("  %s Lock R=%v W=%v", rec.name, rec.read, rec.write)
+	defer func() {
+		if e := recover(); e != nil && !t.Gen.dead.Load() {
+			rec.holding = false
+			l.sched.Logf("  %s PANIC in the locker", rec.name)
+			l.violate("locker-panics", fmt.Sprintf("%s: the lock manager panicked: %v", rec.name, e))
+			l.cur[t] = nil
+		}
+	}()
 	unlock, err := locker.Lock(rctx, command.Accounts{Read: rec.read, Write: rec.write})
 	if t.Gen.dead.Load() {
 		return
